@@ -679,21 +679,110 @@ func r03LineIntersectsExceptions(c *core.Ctx, li *core.Func) {
 		c.Bad(R, "edge-loop/"+li.Name, li.Decl.Pos(), "lineIntersects no longer ranges over the extent's edges")
 		return
 	}
+	lineParam := li.Obj.Type().(*types.Signature).Params().At(0)
 	edgeI := canon(loop.Key)
-	// the intersection test of this iteration
-	var interVar, interPt string
+	var interVar string
+	var interPt types.Object
 	for _, s := range loop.Body.List {
 		if as, ok := s.(*ast.AssignStmt); ok && len(as.Lhs) == 2 && len(as.Rhs) == 1 {
 			if call, ok := as.Rhs[0].(*ast.CallExpr); ok && core.IsCallTo(info, call, "intgeom.SegmentIntersect") {
-				interPt, interVar = canon(as.Lhs[0]), canon(as.Lhs[1])
+				interPt, interVar = core.ObjOf(info, as.Lhs[0]), canon(as.Lhs[1])
 			}
 		}
 	}
-	if interVar == "" {
+	if interVar == "" || interPt == nil {
 		c.Bad(R, "edge-loop/"+li.Name, loop.Pos(), "no intgeom.SegmentIntersect call per edge")
 		return
 	}
 	excl := "isExclusiveEdge(" + edgeI + ")"
+	// isTipTest: cond is exactly "one of the two endpoints of the line equals the point pt" and returns pt
+	var isTipTest func(cond ast.Expr) ast.Expr
+	isTipTest = func(cond ast.Expr) ast.Expr {
+		dj := disjuncts(cond)
+		if len(dj) == 2 {
+			var pt ast.Expr
+			seen := map[int64]bool{}
+			for _, d := range dj {
+				be, ok := ast.Unparen(d).(*ast.BinaryExpr)
+				if !ok || be.Op != token.EQL {
+					return nil
+				}
+				l, r := be.X, be.Y
+				ix, ok := ast.Unparen(l).(*ast.IndexExpr)
+				if !ok {
+					ix, ok = ast.Unparen(r).(*ast.IndexExpr)
+					l, r = r, l
+				}
+				if !ok || core.ObjOf(info, ix.X) != lineParam {
+					return nil
+				}
+				k, isConst := core.ConstInt(info, ix.Index)
+				if !isConst {
+					return nil
+				}
+				seen[k] = true
+				if pt != nil && canon(pt) != canon(r) {
+					return nil
+				}
+				pt = r
+			}
+			if seen[0] && seen[1] {
+				return pt
+			}
+			return nil
+		}
+		// helper(line, pt) whose body is that disjunction on its own parameters
+		if call, ok := ast.Unparen(cond).(*ast.CallExpr); ok && len(call.Args) == 2 && core.ObjOf(info, call.Args[0]) == lineParam {
+			if f := core.Callee(info, call); f != nil {
+				if hf := c.P.ByObj[f.Origin()]; hf != nil && len(hf.Decl.Body.List) == 1 {
+					if ret, ok := hf.Decl.Body.List[0].(*ast.ReturnStmt); ok && len(ret.Results) == 1 {
+						hsig := hf.Obj.Type().(*types.Signature)
+						hinfo := hf.Pkg.TypesInfo
+						dj := disjuncts(ret.Results[0])
+						okH := len(dj) == 2
+						seen := map[int64]bool{}
+						for _, d := range dj {
+							be, ok := ast.Unparen(d).(*ast.BinaryExpr)
+							if !ok || be.Op != token.EQL {
+								okH = false
+								continue
+							}
+							l, r := be.X, be.Y
+							ix, ok := ast.Unparen(l).(*ast.IndexExpr)
+							if !ok {
+								ix, ok = ast.Unparen(r).(*ast.IndexExpr)
+								l, r = r, l
+							}
+							if !ok || core.ObjOf(hinfo, ix.X) != hsig.Params().At(0) || core.ObjOf(hinfo, r) != hsig.Params().At(1) {
+								okH = false
+								continue
+							}
+							if k, isC := core.ConstInt(hinfo, ix.Index); isC {
+								seen[k] = true
+							}
+						}
+						if okH && seen[0] && seen[1] {
+							return call.Args[1]
+						}
+					}
+				}
+			}
+		}
+		return nil
+	}
+	isExclusiveTipOf := func(pt ast.Expr, at ast.Node) bool {
+		if call, ok := ast.Unparen(pt).(*ast.CallExpr); ok && core.IsCallTo(info, call, "pointindex.getExclusiveTip") {
+			return canon(call.Args[0]) == edgeI
+		}
+		if o := core.ObjOf(info, pt); o != nil {
+			if def := singleDef(info, loop.Body, o); def != nil {
+				if call, ok := def.(*ast.CallExpr); ok && core.IsCallTo(info, call, "pointindex.getExclusiveTip") {
+					return canon(call.Args[0]) == edgeI
+				}
+			}
+		}
+		return false
+	}
 	found := map[string]bool{}
 	core.InspectNoLit(loop.Body, func(n ast.Node) bool {
 		switch s := n.(type) {
@@ -702,34 +791,24 @@ func r03LineIntersectsExceptions(c *core.Ctx, li *core.Func) {
 				return true
 			}
 			facts := enclosingFacts(loop.Body, s)
-			// innermost condition
 			var inner ast.Expr
 			for _, pn := range pathTo(loop.Body, s) {
 				if is, ok := pn.(*ast.IfStmt); ok {
 					inner = is.Cond
 				}
 			}
-			ic := canon(inner)
+			if inner == nil || !hasFact(facts, interVar, true) {
+				return true
+			}
+			pt := isTipTest(inner)
+			if pt == nil {
+				return true
+			}
 			switch {
-			case hasFact(facts, interVar, true) && hasFact(facts, excl, true) && strings.Count(ic, "=="+interPt) == 2 && strings.Contains(ic, "||"):
+			case hasFact(facts, excl, true) && core.ObjOf(info, pt) == interPt:
 				found["skip-own-tip-on-exclusive-edge"] = true
-			case hasFact(facts, interVar, true) && hasFact(facts, excl, false) && strings.Count(ic, "==") == 2 && strings.Contains(ic, "||"):
-				// the compared point must be getExclusiveTip(edgeI, edge)
-				okTip := false
-				for _, pn := range pathTo(loop.Body, s) {
-					if blk, ok := pn.(*ast.BlockStmt); ok {
-						for _, st := range blk.List {
-							if as, ok := st.(*ast.AssignStmt); ok && len(as.Rhs) == 1 {
-								if call, ok := as.Rhs[0].(*ast.CallExpr); ok && core.IsCallTo(info, call, "pointindex.getExclusiveTip") && strings.Count(ic, "=="+canon(as.Lhs[0])) == 2 {
-									okTip = true
-								}
-							}
-						}
-					}
-				}
-				if okTip {
-					found["skip-tip-on-exclusive-end-of-inclusive-edge"] = true
-				}
+			case hasFact(facts, excl, false) && isExclusiveTipOf(pt, s):
+				found["skip-tip-on-exclusive-end-of-inclusive-edge"] = true
 			}
 		case *ast.ReturnStmt:
 			if len(s.Results) != 1 || canon(s.Results[0]) != "true" {
@@ -739,7 +818,7 @@ func r03LineIntersectsExceptions(c *core.Ctx, li *core.Func) {
 			switch {
 			case hasFact(facts, interVar, true):
 				found["intersection-counts"] = true
-			case hasFact(facts, excl, false):
+			case hasFact(facts, excl, false) && hasFact(facts, interVar, false):
 				for _, f := range facts {
 					if strings.HasPrefix(f.expr, "lineOverlapsInclusiveEdge(") && f.val {
 						found["overlap-with-inclusive-edge-counts"] = true
@@ -750,13 +829,23 @@ func r03LineIntersectsExceptions(c *core.Ctx, li *core.Func) {
 		return true
 	})
 	// (1) endpoint inside => true, before the loop
-	src := canonNode(c.P, li.Decl.Body)
-	if len(core.CallsIn(info, li.Decl, "pointindex.containsPoint")) == 2 && strings.Index(src, "returntrue") < strings.Index(src, "for"+edgeI) {
+	nInside := 0
+	for _, st := range li.Decl.Body.List {
+		if st == ast.Stmt(loop) {
+			break
+		}
+		if is, ok := st.(*ast.IfStmt); ok && len(is.Body.List) == 1 {
+			if ret, ok := is.Body.List[0].(*ast.ReturnStmt); ok && len(ret.Results) == 1 && canon(ret.Results[0]) == "true" && len(disjuncts(is.Cond)) == 2 {
+				nInside++
+			}
+		}
+	}
+	if len(core.CallsIn(info, li.Decl, "pointindex.containsPoint")) == 2 && nInside == 1 {
 		found["endpoint-inside-counts"] = true
 	}
 	for _, k := range []string{"endpoint-inside-counts", "skip-own-tip-on-exclusive-edge", "skip-tip-on-exclusive-end-of-inclusive-edge", "intersection-counts", "overlap-with-inclusive-edge-counts"} {
-		c.Check(R, "segment-pixel-test/"+k+"/"+li.Name, loop.Pos(), found[k], "present and guarded by the ownership facts it belongs to",
-			"lineIntersects no longer applies the rule `"+k+"`: a segment that only touches a pixel at a border point the pixel does not own (or runs along an owned border) is attributed wrongly")
+		c.Check(R, "segment-pixel-test/"+k+"/"+li.Name, loop.Pos(), found[k], "present, guarded by the ownership facts it belongs to, and its tip test is exactly `an endpoint of the segment equals that point`",
+			"lineIntersects no longer applies the rule `"+k+"` in its exact form: a segment that only touches a pixel at a border point the pixel does not own (or runs along an owned border) is attributed wrongly")
 	}
 }
 
@@ -794,6 +883,49 @@ type condFact struct {
 func enclosingFacts(body *ast.BlockStmt, target ast.Node) []condFact {
 	var facts []condFact
 	path := pathTo(body, target)
+	// statements that precede the target in an enclosing statement list and always leave it (continue, break,
+	// return, panic) when their condition holds: afterwards every disjunct of that condition is false
+	leaves := func(b *ast.BlockStmt) bool {
+		if b == nil || len(b.List) == 0 {
+			return false
+		}
+		switch l := b.List[len(b.List)-1].(type) {
+		case *ast.BranchStmt:
+			return l.Tok == token.CONTINUE || l.Tok == token.BREAK || l.Tok == token.GOTO
+		case *ast.ReturnStmt:
+			return true
+		case *ast.ExprStmt:
+			if c, ok := l.X.(*ast.CallExpr); ok {
+				if id, ok := c.Fun.(*ast.Ident); ok && id.Name == "panic" {
+					return true
+				}
+			}
+		}
+		return false
+	}
+	for i, n := range path {
+		var list []ast.Stmt
+		switch b := n.(type) {
+		case *ast.BlockStmt:
+			list = b.List
+		case *ast.CaseClause:
+			list = b.Body
+		}
+		if list != nil && i+1 < len(path) {
+			for _, st := range list {
+				if ast.Node(st) == path[i+1] {
+					break
+				}
+				if is, ok := st.(*ast.IfStmt); ok && is.Else == nil && is.Init == nil && leaves(is.Body) {
+					for _, dj := range disjuncts(is.Cond) {
+						if len(conjuncts(dj)) == 1 {
+							facts = append(facts, factOf(dj, false))
+						}
+					}
+				}
+			}
+		}
+	}
 	for i, n := range path {
 		switch s := n.(type) {
 		case *ast.IfStmt:
@@ -862,27 +994,68 @@ func r04DecisionTable(c *core.Ctx) {
 	if f == nil {
 		return
 	}
-	info := f.Pkg.TypesInfo
+	// the function that builds the lists: findIntersectingQuadrants itself or a helper it calls
+	isListLit := func(info *types.Info, cl *ast.CompositeLit) bool {
+		st, isSlice := info.TypeOf(cl).Underlying().(*types.Slice)
+		return isSlice && core.TypeShort(st.Elem()) == "pointindex.quadrantToCheck"
+	}
+	builder := f
+	hasLits := func(fn *core.Func) bool {
+		n := 0
+		ast.Inspect(fn.Decl.Body, func(x ast.Node) bool {
+			if cl, ok := x.(*ast.CompositeLit); ok && isListLit(fn.Pkg.TypesInfo, cl) {
+				n++
+			}
+			return true
+		})
+		return n > 0
+	}
+	if !hasLits(f) {
+		builder = nil
+		ast.Inspect(f.Decl.Body, func(x ast.Node) bool {
+			if call, ok := x.(*ast.CallExpr); ok && builder == nil {
+				if cal := core.Callee(f.Pkg.TypesInfo, call); cal != nil {
+					if cf := c.P.ByObj[cal.Origin()]; cf != nil && hasLits(cf) {
+						builder = cf
+					}
+				}
+			}
+			return builder == nil
+		})
+	}
+	if builder == nil {
+		c.Bad(R, "decision-table/"+f.Name, f.Decl.Pos(), "no []quadrantToCheck literals found in findIntersectingQuadrants or a function it calls")
+		return
+	}
+	info := builder.Pkg.TypesInfo
+	c.Saw(R, "decision table built in "+builder.Name)
 	// names of the four classification variables, from their defining calls
 	vars := map[string]string{} // role -> variable name
-	ast.Inspect(f.Decl.Body, func(n ast.Node) bool {
+	boolDefs := map[string]ast.Expr{}
+	ast.Inspect(builder.Decl.Body, func(n ast.Node) bool {
 		as, ok := n.(*ast.AssignStmt)
 		if !ok || len(as.Lhs) != 1 || len(as.Rhs) != 1 {
 			return true
 		}
-		call, ok := as.Rhs[0].(*ast.CallExpr)
-		if !ok || len(call.Args) < 1 {
+		lhs, _ := as.Lhs[0].(*ast.Ident)
+		if lhs == nil {
 			return true
 		}
-		pt := canon(call.Args[0]) // intLine[0] / intLine[1]
+		call, ok := as.Rhs[0].(*ast.CallExpr)
+		if !ok || len(call.Args) < 1 {
+			if bt, isB := info.TypeOf(as.Rhs[0]).Underlying().(*types.Basic); isB && bt.Info()&types.IsBoolean != 0 {
+				boolDefs[lhs.Name] = as.Rhs[0]
+			}
+			return true
+		}
+		pt := canon(call.Args[0]) // line[0] / line[1]
 		k := ""
 		if strings.HasSuffix(pt, "[0]") {
 			k = "1"
 		} else if strings.HasSuffix(pt, "[1]") {
 			k = "2"
 		}
-		lhs, _ := as.Lhs[0].(*ast.Ident)
-		if k == "" || lhs == nil {
+		if k == "" {
 			return true
 		}
 		switch {
@@ -894,14 +1067,77 @@ func r04DecisionTable(c *core.Ctx) {
 		return true
 	})
 	if len(vars) != 4 {
-		c.Bad(R, "classification-vars/"+f.Name, f.Decl.Pos(), fmt.Sprintf("expected quadrant and inside flags for both endpoints, found %v", vars))
+		c.Bad(R, "classification-vars/"+builder.Name, builder.Decl.Pos(), fmt.Sprintf("expected quadrant and inside flags for both endpoints, found %v", vars))
 		return
 	}
 	q1, q2, in1, in2 := vars["quad1"], vars["quad2"], vars["inside1"], vars["inside2"]
+	// boolean evaluation of an expression over (in1, in2); ok=false if it mentions anything else
+	var evalBool func(e ast.Expr, a1, a2 bool, depth int) (val bool, ok bool)
+	evalBool = func(e ast.Expr, a1, a2 bool, depth int) (bool, bool) {
+		if depth > 6 {
+			return false, false
+		}
+		switch x := ast.Unparen(e).(type) {
+		case *ast.Ident:
+			switch x.Name {
+			case "true":
+				return true, true
+			case "false":
+				return false, true
+			case in1:
+				return a1, true
+			case in2:
+				return a2, true
+			}
+			if def, has := boolDefs[x.Name]; has {
+				return evalBool(def, a1, a2, depth+1)
+			}
+		case *ast.UnaryExpr:
+			if x.Op == token.NOT {
+				v, ok := evalBool(x.X, a1, a2, depth+1)
+				return !v, ok
+			}
+		case *ast.BinaryExpr:
+			l, ok1 := evalBool(x.X, a1, a2, depth+1)
+			r, ok2 := evalBool(x.Y, a1, a2, depth+1)
+			if ok1 && ok2 {
+				switch x.Op {
+				case token.LAND:
+					return l && r, true
+				case token.LOR:
+					return l || r, true
+				}
+			}
+		}
+		return false, false
+	}
+	// consistent: the assignment does not contradict the facts that mention only in1/in2
+	consistent := func(facts []condFact, a1, a2 bool) bool {
+		for _, fc := range facts {
+			switch fc.expr {
+			case in1:
+				if fc.val != a1 {
+					return false
+				}
+			case in2:
+				if fc.val != a2 {
+					return false
+				}
+			default:
+				if strings.HasPrefix(fc.expr, "!(") && fc.val {
+					// negated conjunction !(in1&&in2)
+					if fc.expr == "!("+in1+"&&"+in2+")" && a1 && a2 {
+						return false
+					}
+				}
+			}
+		}
+		return true
+	}
 	// the lists
 	type entry struct {
 		i       string
-		certain bool
+		certain ast.Expr
 		mutex   bool
 		pos     token.Pos
 	}
@@ -911,48 +1147,58 @@ func r04DecisionTable(c *core.Ctx) {
 		pos     token.Pos
 	}
 	var lists []list
-	ast.Inspect(f.Decl.Body, func(n ast.Node) bool {
+	ast.Inspect(builder.Decl.Body, func(n ast.Node) bool {
 		cl, ok := n.(*ast.CompositeLit)
-		if !ok {
+		if !ok || !isListLit(info, cl) {
 			return true
 		}
-		st, isSlice := info.TypeOf(cl).Underlying().(*types.Slice)
-		if !isSlice || core.TypeShort(st.Elem()) != "pointindex.quadrantToCheck" {
-			return true
-		}
-		l := list{facts: enclosingFacts(f.Decl.Body, cl), pos: cl.Pos()}
+		l := list{facts: enclosingFacts(builder.Decl.Body, cl), pos: cl.Pos()}
 		for _, el := range cl.Elts {
 			e, ok := el.(*ast.CompositeLit)
 			if !ok || len(e.Elts) != 3 {
-				c.Unknown(R, "entry-shape/"+f.Name, el.Pos(), "quadrantToCheck entry is not a positional {i, certain, mutex} literal")
+				c.Unknown(R, "entry-shape/"+builder.Name, el.Pos(), "quadrantToCheck entry is not a positional {i, certain, mutex} literal")
 				continue
 			}
-			l.entries = append(l.entries, entry{canon(e.Elts[0]), canon(e.Elts[1]) == "true", canon(e.Elts[2]) == "true", e.Pos()})
+			l.entries = append(l.entries, entry{canon(e.Elts[0]), e.Elts[1], canon(e.Elts[2]) == "true", e.Pos()})
 		}
 		lists = append(lists, l)
 		return false
 	})
 	adjX1, adjY1 := "adjacentQuadrantX("+q1+")", "adjacentQuadrantY("+q1+")"
 	for li, l := range lists {
-		name := fmt.Sprintf("%s/list%d", f.Name, li)
-		c.Saw(R, fmt.Sprintf("list%d @%s under %v: %v", li, c.P.Pos(l.pos), l.facts, l.entries))
-		diagonal := hasFact(l.facts, "default", true)
+		name := fmt.Sprintf("%s/list%d", builder.Name, li)
+		diagonal := hasFact(l.facts, "default", true) || (hasFact(l.facts, q1+"=="+q2, false) && hasFact(l.facts, "quadrantsAreAdjacent("+q1+","+q2+")", false))
 		same := hasFact(l.facts, q1+"=="+q2, true)
+		var desc []string
 		bad := ""
 		for _, e := range l.entries {
+			desc = append(desc, fmt.Sprintf("{%s, %s, %v}", e.i, canon(e.certain), e.mutex))
 			// (a) certain only for an endpoint's own quadrant when that endpoint is inside the parent
-			if e.certain {
-				switch e.i {
-				case q1:
-					if !hasFact(l.facts, in1, true) {
-						bad += fmt.Sprintf("entry %s is marked certain although %s is not known true here; ", e.i, in1)
+			for _, a1 := range []bool{false, true} {
+				for _, a2 := range []bool{false, true} {
+					if !consistent(l.facts, a1, a2) {
+						continue
 					}
-				case q2:
-					if !hasFact(l.facts, in2, true) && !(same && hasFact(l.facts, in1, true)) {
-						bad += fmt.Sprintf("entry %s is marked certain although %s is not known true here; ", e.i, in2)
+					cv, ok := evalBool(e.certain, a1, a2, 0)
+					if !ok {
+						bad += fmt.Sprintf("the `certain` flag of entry %s is not a boolean combination of the two inside flags (%s); ", e.i, canon(e.certain))
+						break
 					}
-				default:
-					bad += fmt.Sprintf("entry %s is marked certain but contains no endpoint; ", e.i)
+					if !cv {
+						continue
+					}
+					switch e.i {
+					case q1:
+						if !a1 {
+							bad += fmt.Sprintf("entry %s can be certain although %s is false; ", e.i, in1)
+						}
+					case q2:
+						if !a2 && !(same && a1) {
+							bad += fmt.Sprintf("entry %s can be certain although %s is false; ", e.i, in2)
+						}
+					default:
+						bad += fmt.Sprintf("entry %s can be certain but contains no endpoint; ", e.i)
+					}
 				}
 			}
 			// (b) mutex only on the two quadrants adjacent to pt1's, in the diagonal arm
@@ -960,6 +1206,7 @@ func r04DecisionTable(c *core.Ctx) {
 				bad += fmt.Sprintf("entry %s has mutex set outside the diagonal case / on a non-adjacent quadrant; ", e.i)
 			}
 		}
+		c.Saw(R, fmt.Sprintf("list%d @%s under %v: %v", li, c.P.Pos(l.pos), l.facts, desc))
 		if diagonal {
 			nm := 0
 			hasX, hasY := false, false
@@ -987,6 +1234,20 @@ func r04DecisionTable(c *core.Ctx) {
 		}
 		c.Check(R, "list-shape/"+name, l.pos, bad == "", fmt.Sprintf("%d entries consistent with the geometry of a segment in a 2x2 split", len(l.entries)), bad)
 	}
+	// the three geometric cases are all present
+	nSame, nAdj, nDiag := 0, 0, 0
+	for _, l := range lists {
+		switch {
+		case hasFact(l.facts, q1+"=="+q2, true):
+			nSame++
+		case hasFact(l.facts, "quadrantsAreAdjacent("+q1+","+q2+")", true):
+			nAdj++
+		default:
+			nDiag++
+		}
+	}
+	c.Check(R, "cases-covered/"+builder.Name, builder.Decl.Pos(), nSame >= 1 && nAdj >= 1 && nDiag >= 1, fmt.Sprintf("same-quadrant (%d), adjacent (%d) and diagonal (%d) cases each have a list", nSame, nAdj, nDiag), "one of the cases same quadrant / adjacent quadrants / diagonal quadrants has no list")
+	info = f.Pkg.TypesInfo
 	// (d) the consumer loop, matched by structure and object identity (not by names)
 	{
 		var loop *ast.RangeStmt
@@ -1063,7 +1324,7 @@ func r04DecisionTable(c *core.Ctx) {
 		}
 		c.Check(R, "consumer-loop/"+f.Name, f.Decl.Pos(), okLoop, "a quadrant is reported iff it has points and (certain or lineIntersects(line, its extent)), honouring the mutex; the reported list is returned", "the loop consuming the decision table changed shape: "+why)
 	}
-	c.FloorPrefix(R, "list-shape/", 8)
+	c.FloorPrefix(R, "list-shape/", 3)
 }
 
 func sliceElem(t types.Type) types.Type {
